@@ -31,7 +31,8 @@ fn first_calls(rep: &Report, tier: Tier) {
     let bs = b_set();
     let pts: Vec<u16> = vec![0x0600, 0x0800, 0xFFFF, 0x0081];
     let fids: Vec<u8> = vec![0, 0xA7, 255];
-    let cells: Vec<(usize, Lbl)> = ps.iter().flat_map(|&p| labels().into_iter().map(move |l| (p, l))).collect();
+    // special label VALUES (all-zero 3-byte label, labels next to the reserved all-zero 6-byte label, all ones ...) for small PDUs
+    let cells: Vec<(usize, Lbl)> = ps.iter().flat_map(|&p| labels().into_iter().chain(if p < 48 { special_labels() } else { vec![] }).map(move |l| (p, l))).collect();
     let n_cells = std::sync::atomic::AtomicU64::new(0);
     cells.par_iter().enumerate().for_each(|(ci, &(p, l))| {
         if rep.over_time() {
